@@ -81,6 +81,10 @@ type violation struct {
 }
 
 func oblCounts(prop *PropConfig, o *Obligation, u *Unit) bool {
+	if u.Kind == "own" {
+		// C20 decides ownership (frame) and lock discipline only
+		return o.Kind == "frame" || o.Kind == "lock" || o.Kind == "cover" || o.Kind == "cover.soft" || o.Kind == "requires"
+	}
 	if u.Kind == "sweep" {
 		// the sweep decides absence of panics only; functional clauses belong to other properties
 		return strings.HasPrefix(o.Kind, "safe.") || o.Kind == "cover" || o.Kind == "cover.soft" || o.Kind == "requires"
@@ -179,7 +183,23 @@ func runCheck(propID, repo, verif, tier string, verbose bool) int {
 	}
 	ownSet := append([]string{}, prop.Own...)
 	if len(prop.OwnRoots) > 0 {
-		ownSet = append(ownSet, p.callClosure(prop.OwnRoots)...)
+		// the roots, and every function of their call closure that has a contract of its own: the
+		// remaining helpers are verified in place (inlined) inside those
+		for _, r := range prop.OwnRoots {
+			ownSet = append(ownSet, expandKey(p, r))
+		}
+		for _, k := range p.callClosure(prop.OwnRoots) {
+			fc := p.Contracts[k]
+			if fc == nil || fc.Trusted != "" || fc.inlineOnly() || fc.IsLemma {
+				continue
+			}
+			if fn := p.findFunc(k); fn == nil || fn.Parent() != nil {
+				// a function literal works on its enclosing function's variables: it is part of
+				// that function's body, not an operation with a frame of its own
+				continue
+			}
+			ownSet = append(ownSet, k)
+		}
 	}
 	for _, k := range dedup(ownSet) {
 		units = append(units, p.verifyFunc(expandKey(p, k), "own"))
